@@ -15,6 +15,7 @@
 package ggql
 
 import (
+	"math"
 	"strconv"
 )
 
@@ -42,8 +43,15 @@ func (*floatScalar) CoerceIn(v interface{}) (interface{}, error) {
 		// remains nil
 	case float64:
 		v = float32(tv)
+		if math.IsInf(float64(float32(tv)), 0) || tv != tv {
+			v = nil
+			err = newCoerceErr(tv, "Float")
+		}
 	case float32:
-		// ok as is
+		if math.IsInf(float64(tv), 0) || tv != tv {
+			v = nil
+			err = newCoerceErr(tv, "Float")
+		}
 	case int32:
 		v = float32(tv)
 	case int64:
